@@ -115,7 +115,7 @@ func stracePlane(c *engine.Ctx, n int, fam string, rs uint64, fk string) {
 		c.Obs("strace_units_skipped", 1)
 		c.Inconclusive("strace pass: " + msg)
 	}
-	b := cleanRun(c, n, fam, rs, fk)
+	b := cleanRun(c, n, fam, rs, fk, fam != randFamily)
 	if b == nil {
 		c.Obs("strace_units_skipped", 1)
 		return
